@@ -705,6 +705,16 @@ def t_duplicate_output(rng):
   return _single(rng, f, 'duplicate_output')
 
 
+def t_passthrough(rng):
+  """A graph input that is also a graph output (returned as it is), next to a value computed from it."""
+  def f(g, rng):
+    x = g.inp((2, 8))
+    y = g.fc(x, 4) if rng.random() < 0.7 else g.tanh(x)
+    g.classes.add('input_is_also_output')
+    return [y, x] if rng.random() < 0.5 else [x, y]
+  return _single(rng, f, 'passthrough')
+
+
 def t_producer_zero_float_out(rng):
   """Operator 0 is quantizable, its output feeds an op outside the table and a supported op."""
   def f(g, rng):
@@ -858,7 +868,7 @@ def t_all_unsupported(rng):
 
 TEMPLATES = [t_output_also_consumed, t_producer_zero_float_out, t_repeated_operand,
              t_unsupported_between, t_multi_group, t_shared_const_tensor, t_shared_buffer,
-             t_chain, t_weight_chain, t_duplicate_output]
+             t_chain, t_weight_chain, t_duplicate_output, t_passthrough]
 
 
 def model_for_case(rng, multi_sub_p=0.0, template_p=0.15, shuffle_p=0.15, **kw):
@@ -873,7 +883,7 @@ def model_for_case(rng, multi_sub_p=0.0, template_p=0.15, shuffle_p=0.15, **kw):
     spec = rand_model(rng, n_sub=n_sub, **kw)
   if shuffle_p and rng.random() < shuffle_p:
     spec = shuffle_indices(spec, rng, dangling=bool(rng.random() < 0.3),
-                           shape_sigs=[None, None, 'static', 'dynamic'][int(rng.integers(4))])
+                           shape_sigs=[None, None, 'static', 'dynamic'][int(rng.integers(4))], opcodes=bool(rng.random() < 0.3))
   return spec
 
 
@@ -1048,7 +1058,7 @@ def t_fanout(rng, k=None):
 
 # ---------------------------------------------------------------- semantics-preserving surgery (index hygiene)
 
-def shuffle_indices(spec, rng, tensors=True, buffers=True, signatures=True, dangling=False, shape_sigs=None):
+def shuffle_indices(spec, rng, tensors=True, buffers=True, signatures=True, dangling=False, shape_sigs=None, opcodes=False):
   """Returns a spec describing the SAME model with tensor indices permuted inside every subgraph, data buffers
   permuted (buffer 0 stays the empty sentinel), the signature list reordered and optionally an unused constant
   tensor added.  Nothing about the computation changes; only code that confuses an index with an identity notices."""
@@ -1081,6 +1091,17 @@ def shuffle_indices(spec, rng, tensors=True, buffers=True, signatures=True, dang
     for sg in m.subgraphs:
       for t in sg.tensors:
         t.buffer = bperm[int(t.buffer)]
+  if opcodes and m.operatorCodes:
+    # the same builtin code listed twice (the converter keys operator_codes by (code, version)): some operators use the copy
+    k = int(rng.integers(len(m.operatorCodes)))
+    import copy as _copy
+    dup = _copy.deepcopy(m.operatorCodes[k])
+    dup.version = int(dup.version or 1) + 1
+    m.operatorCodes.append(dup)
+    for sg in m.subgraphs:
+      for op in sg.operators:
+        if op.opcodeIndex == k and rng.random() < 0.5:
+          op.opcodeIndex = len(m.operatorCodes) - 1
   if shape_sigs:
     # shape signatures as the converter writes them for models with a dynamic batch ('dynamic') or spelled out
     # although static ('static'); metadata only -- the default shapes are unchanged
